@@ -313,9 +313,11 @@ package pickle
 //@ >>>
 
 // ---------------------------------------------------------------- C08: fingerprinting terminates, deterministically
-// Termination kernel: a value that can be part of a reference cycle is in the memo before the encoder
-// descends into its components, so a cycle ends in a back-reference. (Tuples are exempt: they are
-// immutable and every cycle through a tuple passes through a memoized container.)
+// Termination kernel: before the encoder descends into the components of a value that can be part of
+// a reference cycle, the value is in the memo (a cycle then ends in a back-reference) or - for
+// host-pickled values, which can only be memoized after they have been rebuilt - has just been marked
+// as in progress by this call (a cycle then ends in the placeholder). Tuples are exempt: they are
+// immutable and every cycle through a tuple passes through a memoized container.
 // A pickler describes a value; it does not reach into the encoder.
 //@ func (pickle.Pickler).Pickle
 
@@ -339,14 +341,15 @@ package pickle
 //@ func (*pickle.Encoder).encode
 //@   requires e != nil && e.memo != nil
 //@   ensures  memo-grows: forall k: value :: old(has(e.memo, k)) ==> has(e.memo, k)
-//@   ensures  same-memo: e.memo == old(e.memo)
+//@   ensures  same-memo: e.memo == old(e.memo) && e.inProgress == old(e.inProgress)
+//@   ensures  in-progress-restored: forall k: value :: has(e.inProgress, k) == old(has(e.inProgress, k))
 //@   trusted
 //@   modifies heap, olen, obytes
 
 //@ func (*pickle.Encoder).encodeComplex
-//@   requires e != nil && e.memo != nil
+//@   requires e != nil && e.memo != nil && e.inProgress != nil
 //@   deterministic
-//@   callsite encode: assert memoize-before-descend: comparable(x) ==> has(e.memo, x)
+//@   callsite encode: assert memoize-before-descend: comparable(x) ==> (has(e.memo, x) || (has(e.inProgress, x) && !old(has(e.inProgress, x))))
 //@   modifies heap, olen, obytes
 //@   loop 0: invariant e != nil && e.memo != nil && (comparable(x) ==> has(e.memo, x))
 //@   loop 1: invariant e != nil && e.memo != nil && (comparable(x) ==> has(e.memo, x))
